@@ -45,8 +45,8 @@ def contexts(chip):
         "receiving_single": [PRX["s"], "startrx"], "receiving_cont": [PRX["c"], "startrx"], "receiving_duty": [PRX["d"], "startrx"],
         "rx_timed_out": [PRX["s"], onirq(chip, ["timeout"]) + "rx 16"], "rx_done": [PRX["s"], onirq(chip, ["rxdone"]) + "rx 16"],
         "cad_prepared": [PCAD], "cad_in_flight": [PCAD, "@pend=0 cad 2"], "listening": ["listen 868100000 7"],
-        "init_failed_after_reset": [PTX, "@fault=%d init" % (2 if fam(chip) == 127 else 1)], "cold_start_failed": ["sleep 0", "@fault=8 " + PTX],
-        "rx_prepared_then_init_failed": [PRX["c"], "@fault=%d init" % (4 if fam(chip) == 127 else 3)],
+        "init_failed_after_reset": [PTX, "@fault=1 init"], "cold_start_failed": ["sleep 0", "@fault=6 " + PTX],
+        "rx_prepared_then_init_failed": [PRX["c"], "@fault=2 init"], "init_failed_in_reset_sequence": [PTX, "@fault=0 init"],
     }
     return c
 
@@ -83,15 +83,8 @@ def pin_events(trace):
 
 
 def fault_positions(trace):
-    """the positions (in pin events) the property speaks about: SPI transactions, BUSY waits, IRQ waits"""
-    out, k = [], 0
-    for t in phymon.tokens(trace):
-        if t.startswith("DELAY") or t == "IRQ-PENDING":
-            continue
-        if t[0] == "w" or t in ("BUSY", "IRQ"):
-            out.append(k)
-        k += 1
-    return out
+    """the positions the fault model has: SPI transactions, BUSY waits, IRQ waits (reset / RF-switch outputs do not count)"""
+    return list(range(sum(1 for t in phymon.tokens(trace) if t[0] == "w" or t in ("BUSY", "IRQ"))))
 
 
 def off_scope_fault(out):
